@@ -92,7 +92,11 @@ func c0102(rep *ev.Reporter, tier string, judge func(c *Case, tr *hx.Trace, w *r
 		nShapes, maxCycle = 99, 6
 		bud = NewBudget(9 * time.Minute)
 	}
-	gen := func(emit func(Case)) {
+	gen := func(emit0 func(Case)) {
+		emit := func(c Case) {
+			c.ReuseDC = true // applies to programs calling Forget / Changed
+			emit0(c)
+		}
 		depMatrix(nShapes, maxCycle, emit)
 		general2(tier, maxCycle, emit)
 		sharedRoles(8, emit)
